@@ -43,6 +43,8 @@ def classify(prog, cfg, res, ref):
         return "odpor-befs-abort-closed-of-parent"
     if rc == 134 and red == "udpor":
         return "udpor-abort"
+    if red == "udpor" and rc == 0 and "DEADLOCK DETECTED" in res.get("text", ""):
+        return "udpor-deadlock-reported-with-exit-code-zero"
     if rc == 4 and red == "odpor" and "X" in f["ops"] and f["nchild"] > 0:
         return "odpor-random-with-created-actor-spurious-crash"
     if algo == "BeFS" and strat == "uniform" and rc == 0:
@@ -133,6 +135,7 @@ def run(ctx):
         return
     seen = set()
     per_cfg, per_class, by_key = {}, {}, {}
+    viol = []
     for (i, cfg, forbid, prog, res), line, v in zip(meta, lines, verdicts):
         ctx.cov["evaluations"] += 1
         per_cfg[cfg] = per_cfg.get(cfg, 0) + 1
@@ -149,10 +152,15 @@ def run(ctx):
             # unreduced run, which agrees with the reference)
             key = classify(prog, cfg, res, refs[i])
             by_key[str(key)] = by_key.get(str(key), 0) + 1
-            ctx.violation("exploration %s does not reach exactly the reference outcomes / verdict" % cfg, case, key=key)
+            viol.append((key, cfg, case))
         else:
             # the unreduced DFS run of simgrid-mc differs from the reference LTS: first suspect the model
             ctx.broken.append({"kind": "model-vs-unreduced-run", "case": case})
+    viol.sort(key=lambda t: t[0] is not None)          # unclassified failures first (only 5 replay files are kept)
+    for key, cfg, case in viol:
+        ctx.violation("exploration %s does not reach exactly the reference outcomes / verdict" % cfg, case, key=key)
+    with open(os.path.join(ctx.work, "all_violations.json"), "w") as fh:
+        json.dump(viol, fh, indent=1, default=str)
     ctx.cov["samples"] = lines[:2] + lines[len(lines) // 2:len(lines) // 2 + 2]
     ctx.cov["per_configuration"] = per_cfg
     ctx.cov["per_class"] = per_class
